@@ -59,6 +59,15 @@ let line l =
        let idom = Stdlib.List.map (function A "-" -> None | x -> Some (num_n x)) ds in
        if SsaCheck.ssa_check (r_cfg c) idom then "(valid)" else "(invalid)"
      | _ -> "(badline)")
+  | "erasecheck" ->
+    (* erasecheck (cfg before SSA) (cfg after SSA) *)
+    let rest = Stdlib.String.sub l (sp1 + 1) (Stdlib.String.length l - sp1 - 1) in
+    (match parse_sexp ("(" ^ rest ^ ")") with
+     | L [pre; c] ->
+       let pre = r_cfg pre and c = r_cfg c in
+       if not (SsaErase.erase_eqb pre c) then "(not-an-erasure)"
+       else if not (SsaErase.mixed_keys_ok c) then "(mixed-keys)" else "(erasure)"
+     | _ -> "(badline)")
   | "constcond" ->
     (* constcond (cfg ...) : the findings of the constant-conditional pass, by position of the if statement *)
     let rest = Stdlib.String.sub l (sp1 + 1) (Stdlib.String.length l - sp1 - 1) in
